@@ -177,10 +177,13 @@ theorem once_afterCreate {inp : Input} {s : Sys} {n : Name} {nd : Node} {l : LId
 theorem OnceCore.weaken {inp : Input} {s : Sys} (l : LId) (h : OnceInv inp s) : OnceCore inp (some l) s :=
   ⟨h.l1, h.l2, fun q lq hh hc td l' h1 h2 => (h.j q lq hh hc td l' h1 h2).elim Or.inl (fun e => by cases e), h.o⟩
 
-/-- the creator call: not evaluated before (that is C15 `once`), and the invariant survives with `l` exempted -/
-theorem once_evalCreator {inp : Input} (wf : OnceWF inp) {s s1 : Sys} {n : Name} {l : LId} {tT : TDef}
-    (h : OnceInv inp s) (hh : Holder inp n l) (hT : s.tasks (toLoad inp l n) = some tT) (hm : mustCreate s tT = true)
-    (he : evalCreator inp s l (toLoad inp l n) = some s1) : OnceCore inp (some l) s1 := by
+/-- the creator call: not evaluated before (that is C15 `once`), and — unless registering the new tasks raised — the
+    invariant survives with `l` exempted -/
+theorem once_evalCreator {inp : Input} (wf : OnceWF inp) {s : Sys} {n : Name} {l : LId} {tT : TDef}
+    (h : OnceInv inp s) (hh : Holder inp n l) (hT : s.tasks (toLoad inp l n) = some tT) (hm : mustCreate s tT = true) :
+    onceOK (evalCreator inp s l (toLoad inp l n)).events = true ∧
+    (OnceCore inp (some l) (evalCreator inp s l (toLoad inp l n)) ∨
+     ∃ e, (evalCreator inp s l (toLoad inp l n)).susp = .err e) := by
   -- the loader object found through the table is `l` itself, and it is not `created`
   obtain ⟨l', hl', hcr⟩ : ∃ l', tT.loader = some l' ∧ s.created l' = false := by
     unfold mustCreate at hm
@@ -196,11 +199,14 @@ theorem once_evalCreator {inp : Input} (wf : OnceWF inp) {s s1 : Sys} {n : Name}
     rcases h.j n l hh hc tT l' hT hl' with h1 | h1
     · rw [hcr] at h1; cases h1
     · cases h1
-  unfold evalCreator at he
+  have honce : onceOK (Ev.creator (inp.creatorOf l) :: s.events) = true := by
+    simp only [onceOK, h.o, Bool.and_true, Bool.not_eq_true']
+    simpa using hfresh
+  unfold evalCreator
   cases hr : regTargets s.targets (targetPairs (inp.make (inp.creatorOf l) (toLoad inp l n))) with
-  | none => simp only [hr] at he; cases he
+  | none => exact ⟨honce, Or.inr ⟨_, rfl⟩⟩
   | some tg =>
-    simp only [hr] at he; cases he
+    refine ⟨honce, Or.inl ?_⟩
     constructor
     · intro k td l0 h1 h2
       exact h.l1 k td l0 (insertNew_old _ _ _ _ _ _ _ h1 h2) h2
@@ -218,14 +224,20 @@ theorem once_evalCreator {inp : Input} (wf : OnceWF inp) {s s1 : Sys} {n : Name}
           simp only at h1
           rw [h3] at h1; cases h1; rw [h4] at h2; cases h2
       · exact (h.j q lq hq hc td l2 hold h2).elim Or.inl (fun e => by cases e)
-    · simp only [onceOK, h.o, Bool.and_true, Bool.not_eq_true']
-      simpa using hfresh
+    · exact honce
 
 theorem once_loaderStep {inp : Input} (wf : OnceWF inp) {s : Sys} {n : Name} {nd : Node} {l : LId}
     (h : OnceInv inp s) (hn : s.nodes n = some nd) (hl : nd.task.loader = some l) :
     OnceInv inp (loaderStep inp s n nd l) ∨
-    (OnceCore inp (some l) (loaderStep inp s n nd l) ∧ ∃ e, (loaderStep inp s n nd l).susp = .err e) := by
+    (∃ e, (loaderStep inp s n nd l).susp = .err e ∧ onceOK (loaderStep inp s n nd l).events = true) := by
   have hh : Holder inp n l := h.l2 n nd l hn hl
+  have hac : ∀ s1, OnceCore inp (some l) s1 →
+      OnceInv inp (afterCreate inp s1 n nd l) ∨
+      (∃ e, (afterCreate inp s1 n nd l).susp = .err e ∧ onceOK (afterCreate inp s1 n nd l).events = true) := by
+    intro s1 h1
+    rcases once_afterCreate (n := n) (nd := nd) h1 with h2 | ⟨h2, e, h3⟩
+    · exact Or.inl h2
+    · exact Or.inr ⟨e, h3, h2.o⟩
   unfold loaderStep
   cases hT : s.tasks (toLoad inp l n) with
   | none => exact Or.inl (h.quiet (Quiet.of_eq rfl rfl rfl rfl))
@@ -233,14 +245,35 @@ theorem once_loaderStep {inp : Input} (wf : OnceWF inp) {s : Sys} {n : Name} {nd
     simp only []
     split
     · rename_i hm
-      cases he : evalCreator inp s l (toLoad inp l n) with
-      | none => exact Or.inl (h.quiet (Quiet.of_eq rfl rfl rfl rfl))
-      | some s1 => exact once_afterCreate (once_evalCreator wf h hh hT hm he)
-    · exact once_afterCreate (h.weaken l)
+      obtain ⟨ho, hc⟩ := once_evalCreator wf h hh hT hm
+      cases hs : (evalCreator inp s l (toLoad inp l n)).susp with
+      | err e => exact Or.inr ⟨e, hs, ho⟩
+      | running => rcases hc with hc | ⟨e, he⟩
+                   · exact hac _ hc
+                   · rw [hs] at he; cases he
+      | yielded k => rcases hc with hc | ⟨e, he⟩
+                     · exact hac _ hc
+                     · rw [hs] at he; cases he
+      | idle => rcases hc with hc | ⟨e, he⟩
+                · exact hac _ hc
+                · rw [hs] at he; cases he
+      | holdOn => rcases hc with hc | ⟨e, he⟩
+                  · exact hac _ hc
+                  · rw [hs] at he; cases he
+      | stopIter => rcases hc with hc | ⟨e, he⟩
+                    · exact hac _ hc
+                    · rw [hs] at he; cases he
+    · exact hac _ (h.weaken l)
 
-/-- the invariant of the transition system: the core, with an exemption only in a state that raised -/
+/-- the invariant of the transition system: the core, or a state that raised (nothing is enabled there) in which
+    still no creator was evaluated twice -/
 def OnceTop (inp : Input) (s : Sys) : Prop :=
-  OnceInv inp s ∨ ∃ l e, OnceCore inp (some l) s ∧ s.susp = .err e
+  OnceInv inp s ∨ ∃ e, s.susp = .err e ∧ onceOK s.events = true
+
+theorem OnceTop.once {inp : Input} {s : Sys} (h : OnceTop inp s) : onceOK s.events = true := by
+  rcases h with h | ⟨_, _, h⟩
+  · exact h.o
+  · exact h
 
 theorem step_err_none {inp : Input} {s s' : Sys} {c : Choice} {e : Err} (hs : s.susp = .err e)
     (h : step inp s c = some s') : False := by
@@ -258,7 +291,7 @@ theorem once_init (inp : Input) : OnceInv inp (init inp) :=
 
 theorem once_step {inp : Input} (wf : OnceWF inp) {s s' : Sys} {c : Choice} (h : OnceTop inp s)
     (hs : step inp s c = some s') : OnceTop inp s' := by
-  rcases h with h | ⟨l, e, _, he⟩
+  rcases h with h | ⟨e, he, _⟩
   · cases c with
     | tick perm =>
       simp only [step] at hs
@@ -268,9 +301,7 @@ theorem once_step {inp : Input} (wf : OnceWF inp) {s s' : Sys} {c : Choice} (h :
         rcases dtick_cases inp s with q | ⟨n, nd, l, hn, hl, heq⟩
         · exact Or.inl (h.quiet q)
         · rw [heq]
-          rcases once_loaderStep wf h hn hl with h1 | ⟨h1, e, h2⟩
-          · exact Or.inl h1
-          · exact Or.inr ⟨l, e, h1, h2⟩
+          exact once_loaderStep wf h hn hl
       | yielded n => simp only [hsu] at hs; exact Or.inl (h.quiet (quiet_selectStep hs))
       | idle => simp [hsu] at hs
       | holdOn => simp [hsu] at hs
